@@ -150,6 +150,8 @@ def install(eng):
     eng.fixtures["CS"] = fx_cloudsync
     from . import sqlmodel
     eng.fixtures["Sqlite"] = sqlmodel.fx_sqlite_storage
+    from . import cachefx
+    cachefx.install(eng)
 
 
 def _pc(cs, sep="/", alt="\\", win=False):
